@@ -28,6 +28,8 @@ def tasks(tier, seed):
 def extra(led, tier, seed):
     from contracts import gemini_invariance, lean_bounds
     led.extend(gemini_invariance.bounded())
+    from contracts import gemini_large
+    led.extend(gemini_large.obligations(seed, tier))
     led.extend(lean_bounds.obligations(tier))
     led.assume("A1", "A2", "A3", "A4", "A8",
                "L8: adjacent transpositions generate the symmetric group, so equivariance under them gives all permutations",
